@@ -93,15 +93,15 @@ Definition parsed_summary (p : EventLog.parsed) : list Z :=
 Definition aux_at (aux : list Z) (k : nat) : Z := nth k aux 0.
 Definition nz (z : Z) : bool := negb (z =? 0).
 
-(** the model of decoder [d] on the inputs of a case *)
+(** the model of decoder [d] on the inputs of a case: [faithful] = the code as it is, with the repairs *)
 Definition model (d : Z) (aux i1 i2 : list Z) : res (list Z) :=
   if d =? D_PARSE_POLICY then run (parse_policy (nz (aux_at aux 0)) i1) i1
   else if d =? D_POLICY_DATA then run (policy_data faithful) i1
-  else if d =? D_LOOKUP_ACMSIZE then run (lookup_acm_size i1) i1
+  else if d =? D_LOOKUP_ACMSIZE then run (lookup_acm_size faithful i1) i1
   else if d =? D_ACM_INFO then run (acm_info faithful i2) i1
-  else if d =? D_TXT_REGS then run (parse_txt_regs i1) i1
+  else if d =? D_TXT_REGS then run (parse_txt_regs faithful i1) i1
   else if d =? D_BIOS_DATA then run parse_bios_data i1
-  else if d =? D_ACM_STATUS then run (read_acm_status i1) i1
+  else if d =? D_ACM_STATUS then run (read_acm_status faithful i1) i1
   else if d =? D_ACMPOL_RAW then run (read_raw64_at i1 888) i1
   else if d =? D_BOOTSTS_RAW then run (read_raw64_at i1 160) i1
   else if d =? D_LOCALITY then run (of_outcome (EventLog.parse_locality i1) (fun b => [b])) i1
@@ -109,13 +109,13 @@ Definition model (d : Z) (aux i1 i2 : list Z) : res (list Z) :=
     run (of_outcome (EventLog.parse_event_data
                        (EventLog.mkEv (aux_at aux 0) (aux_at aux 1) i1 None) (aux_at aux 2))
                     parsed_summary) i1
-  else if d =? D_READ_TXT_REGS then run (read_txt_registers i1) i1
-  else if d =? D_READ_REG then run (read_reg_k i1 (aux_at aux 0)) i1
+  else if d =? D_READ_TXT_REGS then run (read_txt_registers faithful i1) i1
+  else if d =? D_READ_REG then run (read_reg_k faithful i1 (aux_at aux 0)) i1
   else if d =? D_VALUE_FROM then run (value_from_bytes i2 i1) i1
   else if d =? D_SYSFS_PCRS then run (parse_sysfs_pcrs i1) i1
   else if d =? D_LOCAL_CAPS then run (local_caps i1) i1
   else if d =? D_BYTES_RANGE then run (bytes_range (aux_at aux 0) (aux_at aux 1) (aux_at aux 2)) i1
-  else if d =? D_DECRYPT_FRAME then run (decrypt_frame (match i2 with [] => false | _ => true end) i1) i1
+  else if d =? D_DECRYPT_FRAME then run (decrypt_frame faithful (match i2 with [] => false | _ => true end) i1) i1
   else if d =? D_JSON_REGS then run (parse_registers (S (length i1)) i1 []) []
   else RFuel.
 
@@ -128,12 +128,15 @@ Definition MiB : Z := 1048576.
 (** outcome classes agree; [DCrash] (allocation beyond the address-space limit
     of the child, 4 GiB) needs a model run that allocates at least 1 GiB;
     [DTimeout] is never predicted.  For DecryptPrivKey only panic / no panic is
-    compared (the rest is third-party crypto/pem/x509). *)
+    compared (the rest is third-party crypto/pem/x509), except that data too
+    short for the nonce must be reported as an error. *)
 Definition class_match (d : Z) (o : dobs) (r : res (list Z)) : bool :=
   if d =? D_DECRYPT_FRAME then
     match o, r with
     | DPanic, RPanic => true
-    | (DOk _ | DErr), (ROk _ _ | RErr _ _) => true
+    | DOk _, RErr c _ => negb (c =? E_FIX)
+    | DOk _, ROk _ _ => true
+    | DErr, (ROk _ _ | RErr _ _) => true
     | _, _ => false
     end
   else
